@@ -24,6 +24,7 @@ FUNCTIONS['ctls'] = ['_remove_state_subformulas', '_checkQuantifiedFormula', 'CT
 FUNCTIONS['bdd'] = ['find_isomorph', 'BDDNode.__reset__', 'BDDNonTerminalNode.__reset__', 'BDDNonTerminalNode.__new__']
 FUNCTIONS['bddops'] = ['BDDNonTerminalNode.__invert__', 'BDDTerminalNode.__invert__', 'cache_restrict', 'compute_restrict',
                        'apply', 'compute', 'BDDsons_and_BDD', 'BDD_and_BDDsons', 'BDDsons_and_BDDsons']
+FUNCTIONS['bddops'] += ['BDDTerminalNode.__reset__', 'BDDTerminalNode.__new__']
 FUNCTIONS['bddops'] += ['OBDD.__init__', 'OBDD.apply', 'OBDD.__and__', 'OBDD.__or__', 'OBDD.__xor__', 'OBDD.__invert__']
 PROPERTY_FUNCTIONS = {
     'C10': ['Parser.__call__'],
@@ -80,7 +81,7 @@ TRUSTED = {
             'ghost invariant: every constructed node\'s stored denotation is the expansion of its children\'s / its constant',
             'under proof for all nodes, operators, orderings and cache contents satisfying the cache invariant: __invert__ (both classes: complement), cache_restrict/compute_restrict (cofactor: den(res)(s) = den(f)(s[v:=b])), '
             'apply/compute and the three decompositions (den(res)(s) = op(den(A)(s), den(B)(s)) for an arbitrary binary operator value); result caches (dictionaries keyed by node identity) by invariant',
-            'ASSUMED: BDDTerminalNode.__new__ (class-level dictionary Tnodes keyed by 0/1/False/True is not modelled): returns the terminal of the value and leaves constructed nodes as they are',
+            'BDDTerminalNode.__new__ / __reset__ are under proof for Boolean values (the class-level dictionary Tnodes is a global of the heap model keyed by the Boolean; 0/1 are the same keys in Python)',
             'the OBDD wrapper: OBDD.apply, &, |, ^, ~ return a new OBDD over the same ordering whose root denotes the pointwise combination / complement; a normal return of OBDD.apply implies equal orderings '
             '(different orderings: RuntimeError; Ordering.__eq__ is uninterpreted); the operator lambdas are evaluated symbolically; OBDD.__init__ for the leg (node, Ordering)',
             'orderedness: a second GHOST component records the orderings a node\'s diagram respects (variable before its children\'s, children respect it); proved: if the operands of apply/compute/the decompositions, '
